@@ -221,6 +221,11 @@ func runC17(p *core.Prog, r *core.Report) {
 				if !ok {
 					d = "a `return nil` is reachable although " + cl.Name() + " failed: " + p.Pos(core.InstrPos(hit))
 				}
+				// `return step(...)`: the step's verdict is the function's own
+				if len(nilEdges) == 0 && returnedAsIs(fn, c) {
+					r.Check(true, "C17.R2", vf+"/"+cl.Name()+"-propagated", "a failing validation step ("+cl.Name()+") always makes "+vf+" fail", "", p.Pos(c.Pos()))
+					return
+				}
 				r.Check(ok && len(nilEdges) > 0, "C17.R2", vf+"/"+cl.Name()+"-propagated", "a failing validation step ("+cl.Name()+") always makes "+vf+" fail", d, p.Pos(c.Pos()))
 			})
 			if n == 0 {
@@ -1063,4 +1068,43 @@ func exactReferenceKey(v ssa.Value, depth int) string {
 		return why
 	}
 	return ""
+}
+
+// returnedAsIs: the call's (single, error) result is used for nothing but being returned, on every path
+// that follows the call (directly, or through the cell go/ssa spills results into when the function has defers).
+func returnedAsIs(fn *ssa.Function, c *ssa.Call) bool {
+	nRet := 0
+	for _, ref := range *c.Referrers() {
+		switch x := ref.(type) {
+		case *ssa.Return:
+			nRet++
+		case *ssa.Store:
+			if _, cell := x.Addr.(*ssa.Alloc); !cell || x.Val != ssa.Value(c) {
+				return false
+			}
+			found := false
+			for _, in := range x.Block().Instrs {
+				if ret, ok := in.(*ssa.Return); ok {
+					for _, rv := range core.ReturnValues(ret) {
+						if rv == ssa.Value(c) {
+							found = true
+						}
+					}
+				}
+			}
+			if !found {
+				return false
+			}
+			nRet++
+		case *ssa.DebugRef:
+		default:
+			return false
+		}
+	}
+	if nRet == 0 {
+		return false
+	}
+	// every path from the call ends in one of those returns: the call's block ends with it
+	_, ok := c.Block().Instrs[len(c.Block().Instrs)-1].(*ssa.Return)
+	return ok
 }
